@@ -866,4 +866,42 @@ func C20(r *eng.Run) {
 	r.Require("total/returns", "total/documented-panic", "total/binary", "total/strings", "total/format-specs", "total/environment-stubs-and-constructors", "schedules/written-vars/2-threads", "schedules/all-vars/2-threads", "race-pass")
 }
 
-func init() { Checks["C20"] = Check{C20, "model_checking"} }
+func init() {
+	Checks["C20"] = Check{C20, "model_checking"}
+	Replayers["schedule"] = func(c eng.Case) (string, string, error) {
+		if len(c.Args) != 3 {
+			return "", "", fmt.Errorf("bad schedule case")
+		}
+		root := os.Getenv("VERIF_ROOT")
+		if root == "" {
+			root = "/verif"
+		}
+		dir := filepath.Join(root, ".work", "c20-replay")
+		os.RemoveAll(dir)
+		defer os.RemoveAll(dir)
+		mcDir := filepath.Join(root, "mc")
+		info, err := instr.Generate("/repo", dir, filepath.Join(mcDir, "verifsched", "sched.go"), strings.HasPrefix(c.Args[0], "all-vars"))
+		if err != nil {
+			return "", "", err
+		}
+		bin := filepath.Join(dir, "schedrun")
+		cmd := exec.Command("go", "build", "-overlay", info.Overlay, "-o", bin, "./cmd/schedrun")
+		cmd.Dir = mcDir
+		cmd.Env = goEnv()
+		if out, err := cmd.CombinedOutput(); err != nil {
+			return "", "", fmt.Errorf("%v: %s", err, out)
+		}
+		threads := "2"
+		if strings.Contains(c.Args[0], "3-threads") {
+			threads = "3"
+		}
+		r := exec.Command(bin)
+		r.Env = append(os.Environ(), "SCHED_ONLY="+c.Args[1], "SCHED_REPLAY="+c.Args[2], "SCHED_THREADS="+threads)
+		out, err := r.CombinedOutput()
+		fmt.Print(string(out))
+		if err != nil {
+			return "differs from sequential", "same results as sequential execution", nil
+		}
+		return "ok", "ok", nil
+	}
+}
